@@ -7,6 +7,12 @@ HOOK_COMMITS = subprocess.run(
     capture_output=True, text=True).stdout.strip().splitlines()
 
 CHECKS = {
+ "C08": dict(
+   level="fault_enumeration",
+   text="Fault enumeration plus seeded simulation over the real /configuration and /apply_flows handlers (verif-only HandlingDataManager constructor, httptest), the real FileSystemOperation on a temporary tree, real validation/reload and a simulated HAProxy. C08E: for both endpoints x 8 payload classes, a recording run lists every file-system and HAProxy call the update passes through and one run per listed point fails exactly that call (writes are torn). C08S: 0-3 simultaneous faults incl. faults on the restore path, and probe transactions overlapping the update at the engine-built-not-published point, at fault points and at lock sites. Oracles: R1 directory digest unchanged after a non-2xx, R2 probe verdict vector unchanged after a non-2xx, R3 after 2xx directory = old+payload and running engine = fresh engine on that directory, R4 every probe during the switch saw the old or the new configuration. R1/R2 are not demanded when more than one failure hit one update.",
+   design_ref="DESIGN.md section 4 C08",
+   note="Trusted: the fault list is the set of verifhook.Fault points in gateway_file_system.go plus every simHAProxy call; faults are returned errors (no process crash); the managed tree is flows/, quotas/, path_params/, gateway config and user metrics file; 6 probe transactions stand for 'behaviour'.",
+   technique="deterministic simulation with single-fault enumeration over recorded fault points, seeded multi-fault runs and probes concurrent with the configuration switch"),
  "C20": dict(
    text="Seeded deterministic simulation of the real StateChangeWatcher goroutine on the fake clock with generated settings and scripted health observation sequences (steady, single change, flapping below/above the thresholds, random persistence). Trace oracle over the recorded observations and reactions: R1 reactions alternate starting with unhealthy, R2 each reaction is backed by >= N consecutive equal observations spanning >= the stable period, R3 no reaction inside the cool-down after an unhealthy reaction, R4 flapping never reacts (follows from R2 on every reaction). Sampling, not proof.",
    design_ref="DESIGN.md section 4 C20",
